@@ -53,8 +53,10 @@ ASSUMPTIONS = ['floating-point rounding is outside the model: the exact stream u
                'exceptions of the real code are compared as raised / not raised (the exception type is not modelled); '
                'a raise where the model returns a result is a disagreement, a raise on a valid input of the property '
                'is a violation; out-of-range integers, empty selections and malformed expressions MUST raise',
-               'negative-step slices, unsorted or repeated list entries, boolean masks, NumPy-array indices and '
-               'infinite intervals have no oracle verdict (the first two are followed by the model and compared)',
+               'unsorted or repeated list entries, boolean masks, NumPy-array indices and infinite intervals have no '
+               'oracle verdict (the first is followed by the model and compared; C14.getitem_list_only_sorted proves they '
+               'are rejected); negative-step slices: a raise is accepted, a RETURNED partition must consist of the single '
+               'selected cell with the hull of the range the slice traverses (finding C14-F5)',
                'the per-class histogram in the evidence is the harness\'s classification of the generated case, not a '
                'trace of the branches the Lean model executed']
 
@@ -579,7 +581,7 @@ def run_index(desc, v, cls, exact, line, rp, outside):
     return Case('index', line, res, problems, sig, rp, exact, kind='index')
 
 
-def py_selection(obj, shape):
+def py_selection(obj, shape, neg=False):
     """Cells selected by a tuple/int/slice/list-in-tuple expression according to Python/NumPy
     semantics: list of (cells, hull_first, hull_last) per axis; 'reject' when the expression must be
     rejected (out-of-range integer, empty selection, more than one ellipsis, too many indices);
@@ -598,7 +600,18 @@ def py_selection(obj, shape):
     for it, n in zip(items, shape):
         if isinstance(it, slice):
             if it.step is not None and it.step < 0:
-                verdict = False
+                if not neg:
+                    verdict = False
+                    continue
+                # round 4: a verdict for negative steps IF the code returns a partition: nodes cannot be
+                # decreasing, so only a single selected cell can be returned, and its hull is the range
+                # the slice traverses (start down to stop with unit step) - the documented "the step
+                # thins the nodes, not the hull" read in the direction of the slice
+                cells = list(range(n))[it]
+                if len(cells) != 1:
+                    return 'reject'
+                trav = list(range(n))[slice(it.start, it.stop, -1)]
+                sel.append((cells, min(trav), max(trav)))
                 continue
             cells = list(range(n))[it]
             if not cells:
@@ -674,6 +687,16 @@ def run_getitem(desc, obj, wire, cls, exact, rp):
         if msg:
             unit = all(c == list(range(a, b + 1)) for c, a, b in sel)
             problems.append(('getitem cells ' + ('unit-step ' if unit else 'stepped ') + cls, msg))
+    elif res is not None and not isinstance(obj, list):
+        # no verdict from the forward rules; negative steps: only checked when a partition is returned
+        nsel = py_selection(obj, shape, neg=True)
+        if nsel == 'reject':
+            problems.append(('negative-step slice returns a partition for an empty or decreasing selection ' + cls,
+                             'partition[{}] on shape {} returned {}'.format(wire, shape, show_desc(res))))
+        elif nsel is not None:
+            msg = oracle_sub(desc, res, nsel, 'partition[{}]'.format(wire))
+            if msg:
+                problems.append(('negative-step slice hull ' + cls, msg))
     sig = ('getitem', exact) + base_sig(desc) + (cls,) if res is not None and ncells(desc) >= 2 else None
     return Case('getitem', line, res, problems, sig, rp, exact)
 
